@@ -27,7 +27,7 @@ from ..spec import curve
 from . import C13, C15
 
 EXPLANATION = __doc__
-TECHNIQUE = "interval abstract interpretation over ssa terms with exact carry/remainder relations and trace partitioning on carries (inductive limb-bound invariants, overflow-assert discharge); branch-fact dominance of the accept path, canonical dataflow expressions, OR-fold and iterator-coverage rules, borrow-chain predicate vs. L in both backends"
+TECHNIQUE = "interval abstract interpretation over ssa terms with exact carry/remainder relations and trace partitioning on carries (inductive limb-bound invariants, overflow-assert discharge); branch-fact dominance of the accept path, canonical dataflow expressions, OR-fold and iterator-coverage rules, borrow-chain predicate vs. L in both backends; level (type-state) dataflow over every fe32 operation call site of the crate against the proved 3xTIGHT operand contract, who-may-access rule for Fe limbs"
 
 
 def check_verify(ctx, P):
